@@ -478,6 +478,9 @@ func c07Keys(m map[string]any) []string {
 
 func c07IntentComp(c *c07Comp) c07NormComp {
 	out := c07NormComp{Text: c.Text, Color: c07NamedRGB[c.Color], Bold: c.Bold}
+	if len(c.Color) == 7 && c.Color[0] == '#' {
+		out.Color = strings.ToLower(c.Color) // an RGB colour (1.16+ viewers only)
+	}
 	for i := range c.Extra {
 		out.Extra = append(out.Extra, c07IntentComp(&c.Extra[i]))
 	}
